@@ -49,6 +49,11 @@ static int        sut_open, is_push, is_client, lfd = -1; // is_client: the sock
 static char       reqkey[64];                             // Sec-WebSocket-Key of the last upgrade request
 static size_t     scale = 1, fragsize;
 static uint16_t   port;
+static nng_dialer the_dialer;
+static size_t     base_req_len; // length of the upgrade request the dialer emits without padding
+static size_t     pad_n;        // length of the padding header's value in force
+static char       pad_cls[8];   // "" or m1 / eq / p1: the emitted request block is padded to HTTP_BUFSIZE - 1, + 0, + 1 bytes
+#define EMIT_BUFSIZE (8192 - 32) // http_conn.c HTTP_BUFSIZE: the fixed buffer a header block is formatted into when it fits
 static long       walk = -1;
 static int        lenient, skip_walk;
 static int        step;
@@ -352,6 +357,8 @@ main(int argc, char **argv)
 				// the driver listens; the socket's dialer connects (and reconnects, 50 ms) on its own
 				nng_dialer d;
 				int        one = 1;
+				base_req_len = 0;
+				pad_cls[0]   = 0;
 				lfd = socket(AF_INET, SOCK_STREAM, 0);
 				setsockopt(lfd, SOL_SOCKET, SO_REUSEADDR, &one, sizeof(one));
 				si.sin_port = htons(port);
@@ -372,6 +379,7 @@ main(int argc, char **argv)
 					fprintf(stderr, "driver: ws dial %s: %s\n", url, nng_strerror(rv));
 					return 3;
 				}
+				the_dialer       = d;
 				nni_verif_io_max = atol(a[5]) > 0 ? (size_t) atol(a[5]) : (size_t) INT32_MAX;
 				continue;
 			}
@@ -408,18 +416,47 @@ main(int argc, char **argv)
 			struct pollfd pf = { lfd, POLLIN, 0 };
 			uint64_t      end = now_ms() + (lenient ? 500 : 8000);
 			char         *eoh = NULL;
+			const char   *blk = "base";
 			cn[c].fd = -1;
-			if (poll(&pf, 1, lenient ? 500 : 8000) > 0) {
-				cn[c].fd = accept(lfd, NULL, NULL);
-			}
-			if (cn[c].fd >= 0) {
-				setsockopt(cn[c].fd, IPPROTO_TCP, TCP_NODELAY, &one, sizeof(one));
-				while (now_ms() < end && !cn[c].closed_seen) {
-					cn[c].rx[cn[c].nrx] = 0;
-					if ((eoh = strstr((char *) cn[c].rx, "\r\n\r\n")) != NULL) {
-						break;
+			for (;;) {
+				eoh = NULL;
+				if (poll(&pf, 1, lenient ? 500 : 8000) > 0) {
+					cn[c].fd = accept(lfd, NULL, NULL);
+				}
+				if (cn[c].fd >= 0) {
+					setsockopt(cn[c].fd, IPPROTO_TCP, TCP_NODELAY, &one, sizeof(one));
+					while (now_ms() < end && !cn[c].closed_seen) {
+						cn[c].rx[cn[c].nrx] = 0;
+						if ((eoh = strstr((char *) cn[c].rx, "\r\n\r\n")) != NULL) {
+							break;
+						}
+						pump(c, 100);
 					}
-					pump(c, 100);
+				}
+				// a request composed before the padding header was set (the dialer redials on its own): not the one we wait for
+				if (eoh != NULL && pad_cls[0] != 0 && now_ms() < end) {
+					char *xp = strstr((char *) cn[c].rx, "\r\nX-Pad: ");
+					if (xp != NULL && strcspn(xp + 9, "\r") == pad_n) {
+						break; // padded as currently configured
+					}
+					close(cn[c].fd);
+					cn[c].fd          = -1;
+					cn[c].nrx         = 0;
+					cn[c].closed_seen = 0;
+					continue;
+				}
+				break;
+			}
+			if (eoh != NULL) {
+				size_t hl0 = (size_t) (eoh - (char *) cn[c].rx) + 4;
+				if (pad_cls[0] == 0) {
+					base_req_len = hl0;
+				} else {
+					blk = hl0 == EMIT_BUFSIZE - 1 ? "m1" : hl0 == EMIT_BUFSIZE ? "eq" : hl0 == EMIT_BUFSIZE + 1 ? "p1" : "other";
+				}
+				// no NUL may be on the wire inside the block
+				if (memchr(cn[c].rx, 0, hl0) != NULL) {
+					wf = 0;
 				}
 			}
 			if (eoh != NULL) {
@@ -447,7 +484,22 @@ main(int argc, char **argv)
 				}
 				consume(c, hl);
 			}
-			o("\"out\":{\"rv\":\"%s\",\"wf\":%s}", eoh != NULL ? "ok" : (cn[c].fd < 0 ? "noconn" : "norequest"), (eoh != NULL && wf) ? "true" : "false");
+			o("\"out\":{\"rv\":\"%s\",\"wf\":%s,\"blk\":\"%s\"}", eoh != NULL ? "ok" : (cn[c].fd < 0 ? "noconn" : "norequest"), (eoh != NULL && wf) ? "true" : "false", blk);
+		} else if (!strcmp(cmd, "pad")) {
+			// pad m1|eq|p1: a request header of the dialer makes the next upgrade request exactly HTTP_BUFSIZE - 1 / + 0 / + 1 bytes long
+			size_t target = EMIT_BUFSIZE + (!strcmp(a[0], "m1") ? -1 : !strcmp(a[0], "p1") ? 1 : 0);
+			int    rv     = NNG_EINVAL;
+			if (base_req_len > 0 && target > base_req_len + 9) {
+				size_t n = target - base_req_len - 9; // "X-Pad: " + value + CR LF
+				char  *v = malloc(n + 1);
+				memset(v, 'p', n);
+				v[n] = 0;
+				rv    = nng_dialer_set_string(the_dialer, NNG_OPT_WS_HEADER "X-Pad", v);
+				pad_n = n;
+				free(v);
+				snprintf(pad_cls, sizeof(pad_cls), "%s", a[0]);
+			}
+			o("\"out\":{\"rv\":\"%s\"}", rv == 0 ? "ok" : nng_strerror(rv));
 		} else if (!strcmp(cmd, "resp")) {
 			// client role: the driver's answer to the upgrade request
 			int         c = atoi(a[0]), expclosed = lenient ? 0 : atoi(a[2]), then_close = 0;
